@@ -85,7 +85,8 @@ Lemma step_shape rb cd s a subj o : call_shape s o (snd (step_gen rb cd s (RCall
 Proof.
   destruct (step_gen rb cd s (RCall a subj o)) as [s' evs] eqn:E. cbn [snd]. cbn [step_gen] in E.
   destruct subj as [src|i|id].
-  - match type of E with (match ?g with _ => _ end) = _ => destruct g as [res d'] end.
+  - match type of E with (if ?b then _ else _) = _ => destruct b end; [inversion E; apply raise_shape|].
+    match type of E with (match ?g with _ => _ end) = _ => destruct g as [res d'] end.
     destruct res; try (inversion E; apply raise_shape).
     destruct a; [inversion E; apply nil_shape| |]; (eapply finish_shape; [| |exact E]; reflexivity).
   - eapply call_inst_shape. exact E.
@@ -192,7 +193,7 @@ Proof. repeat split; reflexivity. Qed.
 Definition w_choice : choice := {| hit_pick := 5; free_pick := 5; tie := fun _ => 1 |}.
 Definition w_opts : opts := {|
   o_term := 1; o_method := MethDirect; o_ssh := false; o_force := false;
-  o_space := Sp8; o_sub := (5, 6); o_max_ids := 1024%Z; o_cols := 2; o_rows := 1; o_formats := [1];
+  o_space := Sp8; o_sub := (5, 6); o_max_ids := 1024%Z; o_cols := 2; o_rows := 1; o_auto := false; o_formats := [1];
   o_file_max := 1000000%Z; o_stream_max := 1000000%Z; o_fit := (1, 1); o_enc_size := 100%Z;
   o_now := 10%Z; o_check_now := 11%Z; o_mark_now := 12%Z; o_nmax := 1024%Z; o_bmax := 1000000%Z; o_tmax := 1000000%Z;
   o_samples := []; o_choice := w_choice |}.
